@@ -149,8 +149,11 @@ def _prune() -> None:
                 m = os.path.join(p, ".ok")
                 ents.append((os.path.getmtime(m) if os.path.exists(m) else 0, p))
         ents.sort(reverse=True)
-        for _, p in ents[KEEP_STAGES:]:
-            shutil.rmtree(p, ignore_errors=True)
+        for mt, p in ents[KEEP_STAGES:]:
+            # never remove a stage that was used recently: another check (e.g. one running against a
+            # scratch copy) may be importing from it right now; every use refreshes the marker's mtime
+            if time.time() - mt > 3 * 3600:
+                shutil.rmtree(p, ignore_errors=True)
         for n in os.listdir(BUILD):
             if n.endswith(".lock"):
                 base = n[:-5]
